@@ -11,7 +11,7 @@ open TdModel.C01
 /-- `pushChan` with the item's validity needed only if the channel is tracked. -/
 theorem minv_pushChan' {O log keys org start m} (h : MInv O log keys org start m) (c : Nat) (it : ChItem)
     (hit : 2 + c ∈ keys → ItemOK log c it) : MInv O log keys org start (m.pushChan c it) := by
-  refine ⟨coh_pushChan h.coh c it, h.p0, h.q0, h.c0, ?_, h.internal⟩
+  refine ⟨coh_pushChan h.coh c it, h.p0, h.q0, h.c0, ?_, h.internal, h.startP, h.startC⟩
   intro q hq
   rw [queues_pushChan] at hq
   obtain ⟨q0, hq0, rfl⟩ := List.mem_map.1 hq
@@ -35,6 +35,7 @@ theorem minv_chanItem {O log keys org start} (hO : GoodOrders O) (hS : Scn log k
     MInv O log keys org start (Mgr.chanItem O fuel c m it) := by
   cases it with
   | upd e => exact minv_push hO hS h (2 + c) e hit
+  | subscribe => exact minv_chGetDifference hO hS c fuel m h
   | tooLong p =>
     cases p with
     | none => exact minv_chGetDifference hO hS c fuel m h
@@ -78,7 +79,7 @@ theorem queues_clearQueue (m : Mgr) (c : Nat) :
 
 theorem minv_clearQueue {O log keys org start m} (h : MInv O log keys org start m) (c : Nat) :
     MInv O log keys org start (m.clearQueue c) := by
-  refine ⟨⟨h.coh.hlog, ?_, h.coh.tr, h.coh.wf, ?_, ?_⟩, h.p0, h.q0, h.c0, ?_, h.internal⟩
+  refine ⟨⟨h.coh.hlog, ?_, h.coh.tr, h.coh.wf, ?_, ?_⟩, h.p0, h.q0, h.c0, ?_, h.internal, h.startP, h.startC⟩
   · intro k hk; rw [getBox_clearQueue]; exact h.coh.box k hk
   · intro k hk b hb; rw [getBox_clearQueue] at hb; exact h.coh.pend k hk b hb
   · intro k hk; rw [getBox_clearQueue]; exact h.coh.nobox k hk
@@ -131,7 +132,7 @@ theorem minv_settle {O log keys org start} (hO : GoodOrders O) (hS : Scn log key
       generalize (m.chans.map (·.id)).foldl (Mgr.drainChan O fuel) m = m1 at h1
       have h2 : MInv O log keys org start { m1 with internal := [] } :=
         ⟨⟨h1.coh.hlog, h1.coh.box, h1.coh.tr, h1.coh.wf, h1.coh.pend, h1.coh.nobox⟩, h1.p0, h1.q0, h1.c0,
-          h1.queues, fun cont hc => by simp at hc⟩
+          h1.queues, fun cont hc => by simp at hc, h1.startP, h1.startC⟩
       exact foldl_inv (MInv O log keys org start) (Mgr.applyCombined O) m1.internal (fun cont => ∀ e ∈ cont, e ∈ log)
         (fun b a hb ha => minv_applyCombined hO hS hb a ha) _ h2 h1.internal
 
@@ -139,7 +140,7 @@ theorem minv_settle {O log keys org start} (hO : GoodOrders O) (hS : Scn log key
 
 theorem minv_emitted {O log keys org start m} (h : MInv O log keys org start m) (n : Nat) :
     MInv O log keys org start { m with w := { m.w with emitted := n } } :=
-  minv_world h _ rfl rfl rfl rfl
+  minv_world h _ rfl
 
 theorem serverPts_nonneg {O log keys org start m} (hS : Scn log keys org) (h : MInv O log keys org start m) :
     0 ≤ m.w.serverPts := by
@@ -245,12 +246,13 @@ theorem minv_act {O log keys org start} (hO : GoodOrders O) (hS : Scn log keys o
       · exact minv_chGetDifference hO hS c _ _ (minv_fire hO hS hb (2 + c))
       · exact hb
     · exact hb
-  | slice n => exact minv_world h _ rfl rfl rfl rfl
-  | chSlice n => exact minv_world h _ rfl rfl rfl rfl
-  | tlNext => exact minv_world h _ rfl rfl rfl rfl
-  | chTlNext c => exact minv_world h _ rfl rfl rfl rfl
-  | extra k ids => exact minv_world h _ rfl rfl rfl rfl
-  | failNext k => exact minv_world h _ rfl rfl rfl rfl
+  | slice n => exact minv_world h _ rfl
+  | chSlice n => exact minv_world h _ rfl
+  | tlNext => exact minv_world h _ rfl
+  | chTlNext c => exact minv_world h _ rfl
+  | extra k ids => exact minv_world h _ rfl
+  | failNext k => exact minv_world h _ rfl
+  | known c => exact minv_world h _ rfl
 
 theorem minv_runActions {O log keys org start} (hO : GoodOrders O) (hS : Scn log keys org)
     (acts : List Action) (m : Mgr) (h : MInv O log keys org start m) :
